@@ -42,7 +42,7 @@ ObsReason(e) ==
           IN "rechunk:" \o (IF pre.o # "ok" THEN "prefix-fails-whole-succeeds"
                             ELSE IF (res.o = "ok") # (full.o = "ok") THEN "fails-in-different-cases" ELSE "different-value")
                        \o (IF HasNilValue(e.kind, e.chunks) THEN "(nil-map-value)" ELSE "")
-     ELSE IF n >= 2 \/ e.path = "cm" THEN (LET w == Why(e.kind, e.chunks, full) IN IF w = "" THEN "" ELSE "rule:" \o w)
+     ELSE IF n >= 2 \/ e.path = "cm" THEN (LET w == Why(e.kind, e.chunks, full, e.elem) IN IF w = "" THEN "" ELSE "rule:" \o w)
      ELSE ""
 ModelPath(p, kind) == IF p = "graph" THEN (IF kind = "msg" THEN "cms" ELSE "ci") ELSE p
 Agrees(e, fx) == LET p == Cat(ModelPath(e.path, e.kind), e.kind, e.chunks, fx)
